@@ -69,6 +69,38 @@ EXPECTED_REASON = {
 _GENERIC = {"Int", "Float", "String", "Boolean", "ID", "OBJECT", "INTERFACE", "UNION", "ENUM", "SCALAR", "INPUT_OBJECT"}
 
 
+def exception_text(e, depth=0):
+    """Everything textual an exception carries: class name, str(), args, attribute values (lists of problems included),
+    causes.  The audit must not depend on WHERE the engine puts the explanation."""
+    parts = [type(e).__name__]
+    try:
+        parts.append(str(e))
+    except Exception:  # noqa
+        pass
+
+    def walk(x, d):
+        if d > 4:
+            return
+        if isinstance(x, str):
+            parts.append(x)
+        elif isinstance(x, BaseException):
+            if d:
+                parts.append(exception_text(x, d + 1))
+        elif isinstance(x, dict):
+            for v in x.values():
+                walk(v, d + 1)
+        elif isinstance(x, (list, tuple, set)):
+            for v in x:
+                walk(v, d + 1)
+    walk(list(getattr(e, "args", ()) or ()), 1)
+    walk(getattr(e, "__dict__", {}) or {}, 1)
+    if depth < 3:
+        for c in (e.__cause__, e.__context__):
+            if c is not None:
+                parts.append(exception_text(c, depth + 1))
+    return " ".join(parts)
+
+
 def mentions_target(r, message):
     """Wording-independent half of the audit: the refusal names a type / directive / marker the rewrite touched (tokens of
     the site label and of the added chunks that look like type names: an upper-case letter, digit or underscore in them)."""
@@ -512,9 +544,10 @@ async def run_case(ctx, rng, index):
                 st.distinct("refusal_exception_types", type(e).__name__)
                 # audit: was it refused for the intended reason?  (a rewrite that trips another rule first - e.g. a syntax
                 # error - would not exercise the clause it targets)
-                msg = (type(e).__name__ + " " + str(getattr(e, "message", e))).lower()
+                full = exception_text(e)
+                msg = full.lower()
                 want = EXPECTED_REASON.get(r["rule"])
-                if want and not any(w in msg for w in want) and not mentions_target(r, str(getattr(e, "message", e))):
+                if want and not any(w in msg for w in want) and not mentions_target(r, full):
                     st.inc("refused-for-another-reason:" + r["rule"])
                     if os.environ.get("VERIF_C12_AUDIT"):
                         print("AUDIT", r["rule"], "|", r["site"], "|", msg[:200])
